@@ -1,7 +1,7 @@
 import json, re, sys
 rows = {}
 for line in open('/verif/DESIGN.md'):
-    m = re.match(r'\| ([BCD]-C\d\d) \| (.*?) \| (.*?) \| (.*?) \|$', line.strip())
+    m = re.match(r'\| ([BCDE]-C\d\d) \| (.*?) \| (.*?) \| (.*?) \|$', line.strip())
     if m:
         rows[m.group(1)] = m.groups()[1:]
 results = {}
